@@ -15,7 +15,7 @@ RULE = ('(every 4th case runs the same experiment at Master level: a real Master
         'says it fits => the probe must be placed. Non-trivial: the scan found a fit and (a server is not up, or a '
         'server was removed/reloaded earlier in the history, or the feasibility tracker was consulted).')
 BUDGET = {'quick': (120, 30.0), 'thorough': (2500, 280.0)}
-REQUIRED_REACH = {'*': ['probe_fits', 'probe_fits_placed', 'probe_tracker_consulted', 'quiescent_states', 'quiescent_master_states', 'master_probe_fits']}
+REQUIRED_REACH = {'*': ['probe_fits', 'probe_fits_placed', 'probe_tracker_consulted', 'quiescent_states', 'quiescent_master_states', 'master_probe_fits', 'identity_exhaustion_probes']}
 PROBES = 8
 
 
@@ -127,6 +127,8 @@ def run(ctx):
             continue
         pf = celldrv.Profile()
         pf.pressure = (0.6, 1.6)
+        pf.p_identity = 0.5
+        pf.weights = {'del_server': 4, 'del_app': 6, 'group': 5, 'regroup': 2}
         if rng.random() < 0.3:
             pf.n_ops = (25, 45)
         h = engine.History(ctx, rng, pf, [])
@@ -182,6 +184,27 @@ def run(ctx):
                 ctx.done(case_desc=(idx, k, desc['probe']),
                          nontrivial=bool(must and (churn or notup or res['consulted'])),
                          sample=desc if must and res['consulted'] else None)
+            # identity conservation seen from outside: every identity the harness counts free can be used
+            H, cell = h.drv.H, h.drv.cell
+            for g in sorted(H.groups):
+                held = {a.identity for n, a in cell.apps.items()
+                        if n in H.apps and H.apps[n]['group'] == g and a.identity is not None}
+                free = len(set(range(H.groups[g])) - held)
+                labels = sorted({s['label'] for s in H.servers.values() if s['state'] == 'up'})
+                if not free or not labels:
+                    continue
+                res = probe.identity_exhaustion_probe(h, g, free, labels[0])
+                ctx.count('identity_exhaustion_probes')
+                if res is None:
+                    ctx.count('probe_child_died')
+                elif 'error' in res:
+                    ctx.violation('exception-in-probe-cycle', res['error'], case=dict(ops=h.drv.ops[-60:]))
+                elif len(res['placed']) != free:
+                    ctx.violation('free-identity-unavailable', 'group %s: %d identities are held by nobody, but only %d of %d '
+                                  'zero-demand instances of the group were placed (available=%s)' % (
+                                      g, free, len(res['placed']), free, res['available']),
+                                  witness=res, case=dict(ops=h.drv.ops[-60:], group=g, free=free))
+                ctx.done(case_desc=(idx, 'idprobe', g, free), nontrivial=True)
         finally:
             env.VClock.uninstall()
         h.absorb_counters()
